@@ -23,12 +23,53 @@ class ConsumerClient(Client):
                 return o
         return None
 
+    def output_variant(self, sid):
+        """Same unitary, same input herald, the output herald on another mode
+        (three-argument form): only the read-out differs between the two
+        circuits a live consumer is given one after the other."""
+        r, w = self.rng, self.w
+        n = r.randint(3, 4)
+        b, v0, v1 = w.new_id("c"), w.new_id("c"), w.new_id("c")
+        m = r.randrange(n)
+        oa, ob = r.sample(range(n), 2)
+        hn = r.choice([0, 1, 1])
+        st = [0] * (n - 1)
+        for _ in range(r.randint(1, 2)):
+            st[r.randrange(n - 1)] += 1
+
+        def use_n():
+            if self.kind == "qs":
+                return {"op": "quick_n_outputs", "s": sid, "n": 50,
+                        "seed": self.seed()}
+            return {"op": r.choice(["sample_n_inputs", "sample_n_outputs"]),
+                    "s": sid, "n": 50, "seed": self.seed()}
+        self.queue = [
+            {"op": "new_unitary", "n": n, "seed": r.randrange(1 << 30),
+             "kind": "haar", "out": b},
+            {"op": "copy", "c": b, "out": v0},
+            {"op": "herald", "c": v0, "n": hn, "i": m, "o": oa},
+            {"op": "copy", "c": b, "out": v1},
+            {"op": "herald", "c": v1, "n": hn, "i": m, "o": ob},
+            {"op": "cons_set", "kind": self.kind, "s": sid, "attr": "circuit",
+             "ref": v0, "ref_c": v0},
+            {"op": "cons_set", "kind": self.kind, "s": sid,
+             "attr": "input_state", "value": st},
+            use_n(),
+            {"op": "cons_set", "kind": self.kind, "s": sid, "attr": "circuit",
+             "ref": v1, "ref_c": v1},
+            use_n(), self.use_op(sid),
+        ]
+        w.stats["intent:herald_variant_output_only"] += 1
+        return self.queued()
+
     def variant_intent(self, sid):
         """Two circuits with the same unitary that differ only in their
         heralds (photon number or mode), swapped under a live consumer."""
         r, w = self.rng, self.w
         if len(self.own_circuits()) + 2 > self.cfg["max_circuits"] + 2:
             return None
+        if r.random() < 0.3:
+            return self.output_variant(sid)
         bases = self.any_circuits(
             lambda cid, c: 2 <= c.n_modes <= self.cfg["emu_max_modes"] - 0
             and not c.heralds["input"] and c.input_modes >= 2)
@@ -226,6 +267,10 @@ class ConsumerClient(Client):
         if multi:
             q[0]["multi"] = True
             q[0]["rules"] = [[[m0], [0, 1, 2]]]
+        aslist = r.random() < 0.5
+        if aslist:
+            # the rules are given as lists the caller keeps - and changes later
+            q[0]["as_list"] = True
         if self.kind == "qs":
             q.append({"op": "cons_set", "kind": "qs", "s": sid,
                       "attr": "post_select", "ref": ref})
@@ -234,11 +279,22 @@ class ConsumerClient(Client):
             # several rules per mode are allowed: tighten the rule on a mode
             # that already carries one, twice, between uses
             for ns in r.sample([[0, 1], [1, 2], [0], [1], [0, 2]], 2):
-                q.append({"op": "ps_add", "ps": ref, "modes": [m0], "n": ns})
+                q.append({"op": "ps_add", "ps": ref, "modes": [m0], "n": ns,
+                          "as_list": aslist})
+                q.append(use())
+            if aslist:
+                q.append({"op": "caller_mutate", "what": "pslist", "ps": ref,
+                          "k": r.randrange(3), "which": "n",
+                          "value": r.choice([0, 1, 2, 3])})
                 q.append(use())
             self.queue = q
             w.stats["intent:postsel_session_multi"] += 1
             return self.queued()
+        if aslist:
+            q.append({"op": "caller_mutate", "what": "pslist", "ps": ref, "k": 0,
+                      "which": r.choice(["n", "n", "m"]),
+                      "value": r.choice([0, 1, 2, 3]) })
+            q.append(use())
         # a refused addition: the mode already has a rule
         q.append({"op": "ps_add", "ps": ref,
                   "modes": [m0] if r.random() < 0.5 else sorted([m0, r.choice(others)]),
